@@ -1,4 +1,6 @@
 """C02 — the verdict is 'failed' exactly when something went wrong."""
+import os
+
 from vt import monitors
 from vt import ow
 from vt import runrt
@@ -28,6 +30,24 @@ BOUND = {
 CHUNK = 128
 
 BAD = ['fail', 'error', 'uxs', 'sub:1,0,1', 'sub:0,1,1', 'body+teardown', 'setup_err']
+# bad in one --repeat iteration only (first / second execution in the process)
+BAD_REP = ['fail@1', 'error@1', 'fail@2', 'uxs', 'sub:1,0,1']
+# ways a test module can fail to be imported (real discovery, real processes)
+IMPORT_KINDS = {
+    'ImportError': 'import vt_no_such_module_xyz\n',
+    'SyntaxError': 'def broken(:\n    pass\n',
+    'IndentationError': 'def f():\npass\n',
+    'RuntimeError': 'raise RuntimeError("at import")\n',
+    'SystemExit0': 'import sys\nsys.exit(0)\n',
+    'SystemExit1': 'raise SystemExit(1)\n',
+    'SystemExitNone': 'raise SystemExit\n',
+    'suite_raises': 'def test_suite():\n    raise ValueError("in test_suite")\n',
+    'suite_exits': 'import sys\ndef test_suite():\n    sys.exit(0)\n',
+    'suite_none': 'def test_suite():\n    return None\n',
+    'no_tests': 'x = 1\n',
+    'good': 'import unittest\nclass T(unittest.TestCase):\n    def test_ok(self):\n        pass\n',
+}
+
 LOOK = ['skip_dec', 'skip_body', 'xfail',
         {'s': 'pass', 'w': [['o', '0 0 0\n', False]]},
         {'s': 'pass', 'w': [['e', '0 0 0\n', False]]},
@@ -35,7 +55,8 @@ LOOK = ['skip_dec', 'skip_body', 'xfail',
         {'s': 'pass', 'w': [['fd2', '0 0 0\n', False]]},
         {'s': 'pass', 'w': [['fd2', '1 2\n1 2 x\n', False]]},
         {'s': 'pass', 'w': [['o', 'Traceback (most recent call last):\nError in test fake\n', False]]}]
-MODES = {'seq': [], 'j1': ['-j1'], 'j2': ['-j2'], 'j3': ['-j3'], 'v': ['-v'],
+MODES = {'rep2': ['--repeat', '2'], 'j2rep2': ['-j2', '--repeat', '2'], 'rep3v': ['--repeat', '3', '-v'],
+         'seq': [], 'j1': ['-j1'], 'j2': ['-j2'], 'j3': ['-j3'], 'v': ['-v'],
          'j2vv': ['-j2', '-vv'], 't': ['-t', 'q0|q1'], 'lvl': ['--only-level', '1'],
          'j2t': ['-j2', '-t', 'q1|q2']}
 
@@ -83,6 +104,17 @@ def cases(tier, seed):
     for shape, sc, lf, bm in _items(tier):
         for m in worlds.rot(modes, seed):
             yield [shape, sc, lf, bm, m, None]
+    # --repeat: items that are bad in one iteration only
+    for shape in ow.SHAPES:
+        nslots = len(ow.SHAPES[shape][1])
+        for sc in ow.placements(nslots, BAD_REP, 1 if tier == 'quick' else 2):
+            for m in ('rep2', 'j2rep2', 'rep3v'):
+                yield [shape, sc, {}, [], m, None]
+    # modules that cannot be imported, by real discovery in real processes
+    for kind in IMPORT_KINDS:
+        for m in ('seq', 'j2', 'v'):
+            for with_layer in (False, True):
+                yield ['imp', kind, m, with_layer]
     # the exit status of the real command line (real processes)
     for wi in range(len(CLI_WORLDS)):
         for m in ('seq', 'j2', 'v'):
@@ -177,7 +209,52 @@ def _mk_hook(cf, state):
     return hook
 
 
+def run_imp_case(kind, m, with_layer):
+    """A tree with one good test module (optionally with a layer) and one
+    module of the given kind, run as a real command line."""
+    import subprocess
+    from vt import env
+    root = env.scratch('vtimp')
+    try:
+        d = os.path.join(root, 'pk', 'tests')
+        os.makedirs(d)
+        for p in (os.path.join(root, 'pk'), d):
+            with open(os.path.join(p, '__init__.py'), 'w'):
+                pass
+        good = IMPORT_KINDS['good']
+        if with_layer:
+            good += ('class L:\n    @classmethod\n    def setUp(cls):\n        pass\n'
+                     '    @classmethod\n    def tearDown(cls):\n        pass\n'
+                     'class T2(unittest.TestCase):\n    layer = L\n    def test_l(self):\n        pass\n')
+        with open(os.path.join(d, 'test_a_good.py'), 'w') as f:
+            f.write(good)
+        with open(os.path.join(d, 'test_b_%s.py' % kind.lower()), 'w') as f:
+            f.write(IMPORT_KINDS[kind])
+        cmd = [env.PY, '-m', 'zope.testrunner', '--path', root] + list(MODES[m])
+        p = subprocess.run(cmd, env=env.child_env(), stdout=subprocess.PIPE, stderr=subprocess.STDOUT,
+                           stdin=subprocess.DEVNULL, timeout=120, cwd=root)
+        text = p.stdout.decode('utf-8', 'replace')
+    finally:
+        env.rmtree(root)
+    viol = []
+    want = 0 if kind == 'good' else 1
+    sig = {'part': 'imp', 'kind': kind, 'mode': m}
+    if p.returncode != want:
+        viol.append({'clause': 'exit_status', 'sig': sig,
+                     'detail': 'module kind %s, argv %s: exit status %r, expected %r\n%s' % (kind, MODES[m], p.returncode, want, text[-1200:])})
+    # the good module's tests still ran
+    mt = runrt.TOTAL_RE.search(text) or runrt.RAN_RE.search(text)
+    if not mt or int(mt.group(1)) != (2 if with_layer else 1) + (1 if kind == 'good' else 0):
+        viol.append({'clause': 'good_tests_not_run', 'sig': sig,
+                     'detail': 'module kind %s, argv %s: summary %r\n%s' % (kind, MODES[m], mt and mt.group(0), text[-1200:])})
+    return viol
+
+
 def run_case(case):
+    if case[0] == 'imp':
+        viol = run_imp_case(case[1], case[2], case[3])
+        return {'evals': 1, 'nontrivial': 1, 'violations': viol, 'outcome': 'imp', 'nogate': True,
+                'counters': {'real_process_runs': 1}}
     if case[0] == 'cli':
         viol = run_cli_case(case[1], case[2])
         return {'evals': 2, 'nontrivial': 2, 'violations': viol, 'outcome': 'cli', 'nogate': True,
